@@ -971,7 +971,17 @@ func (p *Parser) isNonReservedKeyword() bool {
 // canBeAlias checks if current token can be used as an alias
 // Aliases can be IDENT, double-quoted identifiers, or certain non-reserved keywords
 func (p *Parser) canBeAlias() bool {
+	if p.atReturningWord() {
+		return false
+	}
 	return p.isIdentifier() || p.isNonReservedKeyword()
+}
+
+// atReturningWord reports whether the current token is the unquoted word RETURNING. It
+// reaches the parser as a plain identifier; after a table or an expression it opens the
+// RETURNING clause (INSERT ... SELECT ... FROM t RETURNING x) and is not an alias.
+func (p *Parser) atReturningWord() bool {
+	return strings.EqualFold(p.currentToken.Literal, "RETURNING") && p.currentToken.Type != models.TokenTypeDoubleQuotedString
 }
 
 // parseAlterTableStmt is a simplified version for the parser implementation
